@@ -4,6 +4,10 @@ import OjgVerif.JPMut.LemmasOneExact
 For paths without recursive descent on simple data, with the `delOneAbsent` deviation off: when SetOne/DelOne stop, the
 data is `single p d op` for a selected location `p`, or (Set) `insAll [c] d` for one member `c` the path creates; when
 they run to the end nothing has changed and nothing is selected (or to be created). -/
+set_option linter.unusedSimpArgs false
+set_option linter.unusedSectionVars false
+set_option linter.unusedVariables false
+
 namespace OjgVerif.JPMut
 open OjgVerif OjgVerif.JPath
 
@@ -394,16 +398,34 @@ theorem mem_creates_cons (v : JV) (f : Frag) (rest : List Frag) (d c : JV) (l : 
   apply List.mem_append_right
   exact List.mem_flatMap.2 ⟨([l], c), hs, List.mem_map.2 ⟨c', hc', rfl⟩⟩
 
+theorem creates_scalar (v : JV) (g : Frag) (r : List Frag) (c : JV) (hg : isDescentF g = false) (hc : isContainer c = false) :
+    createsG σ v (g :: r) c = [] := by
+  rw [creates_cons, ownCreates_scalar v g r c hc, sel_scalar (σ := σ) g c hg hc]
+  rfl
+
+/-- what the traversal needs to know about the rest of the path after an inner fragment -/
+structure TailOK (σ : SliceFn) (tail : List Frag) : Prop where
+  locs_ne : ∀ c, WF c → ∀ p ∈ locsG σ tail c, p ≠ []
+  creates_ne : ∀ v c, WF c → ∀ c' ∈ createsG σ v tail c, c'.1 ≠ []
+  locs_sc : ∀ c, isContainer c = false → locsG σ tail c = []
+  creates_sc : ∀ v c, isContainer c = false → createsG σ v tail c = []
+
+theorem tailOK_of_noDescent (g : Frag) (r : List Frag) (hnd : NoDescent (g :: r)) : TailOK σ (g :: r) :=
+  ⟨fun c hw p hp e => locs_no_nil (σ := σ) (g :: r) (by simp) hnd c (WF_top c hw) (e ▸ hp),
+   fun v c hw c' hc' => creates_ne_nil (σ := σ) v (g :: r) hnd c hw c' hc',
+   fun c hc => locs_scalar (σ := σ) g r c (hnd g (by simp)) hc,
+   fun v c hc => creates_scalar v g r c (hnd g (by simp)) hc⟩
+
 /-- lifting the result of the rest of the path on the member `l` to the container -/
-theorem setOne_lift (a : SetArg) (f g : Frag) (r : List Frag) (d c : JV) (l : Loc) (hw : WF d) (hnd : NoDescent (g :: r))
+theorem setOne_lift (a : SetArg) (f g : Frag) (r : List Frag) (d c : JV) (l : Loc) (hw : WF d) (ht : TailOK σ (g :: r))
     (hc : child? l d = some c) (hs : ([l], c) ∈ selG σ f d) (rr : R) (hr : SetOne σ a (g :: r) c rr) (hst : rr.st = .stop) :
     SetOne σ a (f :: g :: r) d ⟨putChild l rr.d d, .stop⟩ := by
   have hwc := WF_child l d c hw hc
   rcases hr.2 hst with ⟨p, hp, hd⟩ | ⟨v, c', rfl, hc', hd⟩
-  · have hpne : p ≠ [] := fun e => locs_no_nil (σ := σ) (g :: r) (by simp) hnd c (WF_top c hwc) (e ▸ hp)
+  · have hpne : p ≠ [] := ht.locs_ne c hwc p hp
     refine setOne_stop_loc a _ _ _ (l :: p) ((mem_locs_cons (σ := σ) f (g :: r) d _).2 ⟨([l], c), hs, p, hp, rfl⟩) ?_
     rw [hd, singleA_cons a l p hpne d c (WF_top d hw) hc]
-  · have hpne : c'.1 ≠ [] := creates_ne_nil (σ := σ) v (g :: r) hnd c hwc c' hc'
+  · have hpne : c'.1 ≠ [] := ht.creates_ne v c hwc c' hc'
     refine setOne_stop_new v _ _ _ (l :: c'.1, c'.2) (mem_creates_cons v f (g :: r) d c l hs c' hc') ?_
     rw [hd]
     exact (insAll_single_cons l c'.1 c'.2 hpne d c (WF_top d hw) hc).symm
@@ -429,7 +451,7 @@ theorem setOne_go_of (a : SetArg) (f g : Frag) (r : List Frag) (d : JV)
     cases hc'
 
 theorem setFollow_one (a : SetArg) (f g : Frag) (r : List Frag) (d c : JV) (l : Loc) (k : Bool → JV → R) (hw : WF d)
-    (hnd : NoDescent (g :: r)) (hc : child? l d = some c) (hs : ([l], c) ∈ selG σ f d)
+    (ht : TailOK σ (g :: r)) (hc : child? l d = some c) (hs : ([l], c) ∈ selG σ f d)
     (honly : ∀ m ∈ selG σ f d, m = ([l], c)) (hown : ∀ v, a = .val v → ownCreates v f (g :: r) d = [])
     (hk : isContainer c = true → SetOne σ a (g :: r) c (k false c))
     (hkgo : (k false c).st = .go → (k false c).d = c) :
@@ -445,32 +467,24 @@ theorem setFollow_one (a : SetArg) (f g : Frag) (r : List Frag) (d c : JV) (l : 
       intro m hm
       rw [honly m hm]
       exact (hr.1 hst).2
-    | stop => exact setOne_lift a f g r d c l hw hnd hc hs _ hr hst
+    | stop => exact setOne_lift a f g r d c l hw ht hc hs _ hr hst
     | err e => exact ⟨(fun h => by cases h), fun h => by cases h⟩
     | fault => exact ⟨(fun h => by cases h), fun h => by cases h⟩
     | stale => exact ⟨(fun h => by cases h), fun h => by cases h⟩
   · simp only [hcont, Bool.false_eq_true, if_false]
     exact setOne_err a _ _ _ _
 
-theorem creates_scalar (v : JV) (g : Frag) (r : List Frag) (c : JV) (hg : isDescentF g = false) (hc : isContainer c = false) :
-    createsG σ v (g :: r) c = [] := by
-  rw [creates_cons, ownCreates_scalar v g r c hc, sel_scalar (σ := σ) g c hg hc]
-  rfl
-
-theorem setVisit_one (dev : Dev) (a : SetArg) (cont : Bool) (f g : Frag) (r : List Frag) (d : JV) (hw : WF d)
-    (hnd : NoDescent (g :: r)) (hf : ∀ k, f ≠ .child k) (hok : StepsOK σ (setSteps dev f d) f d)
-    (ih : ∀ l c, child? l d = some c → ([l], c) ∈ selG σ f d → ∀ fl, SetOne σ a (g :: r) c (setF false dev true a (g :: r) fl c)) :
-    SetOne σ a (f :: g :: r) d
-      (visitD cont dev.descentSiblings (setF false dev true a (g :: r)) false (setSteps dev f d) d) := by
-  have hndg : isDescentF g = false := hnd g (by simp)
-  have hk : ∀ fl' c, (setF false dev true a (g :: r) fl' c).st = .go → (setF false dev true a (g :: r) fl' c).d = c :=
-    fun fl' c h => (setF_inv false dev a (g :: r) fl' c).1 h
-  have h := visitD_one cont dev.descentSiblings _ hk (setSteps dev f d) false d
-  cases hst : (visitD cont dev.descentSiblings (setF false dev true a (g :: r)) false (setSteps dev f d) d).st with
+theorem setVisit_one (dev : Dev) (a : SetArg) (cont sib : Bool) (f g : Frag) (r : List Frag) (d : JV) (hw : WF d)
+    (ht : TailOK σ (g :: r)) (hf : ∀ k, f ≠ .child k) (hok : StepsOK σ (setSteps dev f d) f d) (kk : Bool → JV → R)
+    (hk : ∀ fl' c, (kk fl' c).st = .go → (kk fl' c).d = c)
+    (ih : ∀ l c, child? l d = some c → ([l], c) ∈ selG σ f d → ∀ fl, SetOne σ a (g :: r) c (kk fl c)) :
+    SetOne σ a (f :: g :: r) d (visitD cont sib kk false (setSteps dev f d) d) := by
+  have h := visitD_one cont sib _ hk (setSteps dev f d) false d
+  cases hst : (visitD cont sib kk false (setSteps dev f d) d).st with
   | go =>
     obtain ⟨h1, h2⟩ := h.1 hst
-    have hR : visitD cont dev.descentSiblings (setF false dev true a (g :: r)) false (setSteps dev f d) d = ⟨d, .go⟩ := by
-      cases hv : visitD cont dev.descentSiblings (setF false dev true a (g :: r)) false (setSteps dev f d) d with
+    have hR : visitD cont sib kk false (setSteps dev f d) d = ⟨d, .go⟩ := by
+      cases hv : visitD cont sib kk false (setSteps dev f d) d with
       | mk dd ss => rw [hv] at hst h1; simp only at hst h1; rw [hst, h1]
     rw [hR]
     apply setOne_go_of a f g r d (fun v _ => ownCreates_inner_nil v f g r d hf)
@@ -484,17 +498,17 @@ theorem setVisit_one (dev : Dev) (a : SetArg) (cont : Bool) (f g : Frag) (r : Li
     · have hsc : isContainer m.2 = false := by
         simp only [pass, Bool.not_eq_true', Bool.not_eq_false, Bool.and_eq_true, Bool.not_eq_true'] at hp
         exact hp.2
-      exact ⟨locs_scalar (σ := σ) g r m.2 hndg hsc, fun v _ => creates_scalar v g r m.2 hndg hsc⟩
+      exact ⟨ht.locs_sc m.2 hsc, fun v _ => ht.creates_sc v m.2 hsc⟩
   | stop =>
-    have hne : (visitD cont dev.descentSiblings (setF false dev true a (g :: r)) false (setSteps dev f d) d).st ≠ .go := by
+    have hne : (visitD cont sib kk false (setSteps dev f d) d).st ≠ .go := by
       rw [hst]; simp
     obtain ⟨l, hl, c, fl', hc, _, hst', hd⟩ := h.2 hne
     rw [hst] at hst'
     have hsel := (hok.mem l c hc).1 hl
-    have hlift := setOne_lift a f g r d c l hw hnd hc hsel _ (ih l c hc hsel fl') hst'
-    have hR : visitD cont dev.descentSiblings (setF false dev true a (g :: r)) false (setSteps dev f d) d =
-        ⟨putChild l (setF false dev true a (g :: r) fl' c).d d, .stop⟩ := by
-      cases hv : visitD cont dev.descentSiblings (setF false dev true a (g :: r)) false (setSteps dev f d) d with
+    have hlift := setOne_lift a f g r d c l hw ht hc hsel _ (ih l c hc hsel fl') hst'
+    have hR : visitD cont sib kk false (setSteps dev f d) d =
+        ⟨putChild l (kk fl' c).d d, .stop⟩ := by
+      cases hv : visitD cont sib kk false (setSteps dev f d) d with
       | mk dd ss => rw [hv] at hst hd; simp only at hst hd; rw [hst, hd]
     rw [hR]; exact hlift
   | err e => exact ⟨(fun h => by rw [hst] at h; cases h), fun h => by rw [hst] at h; cases h⟩
@@ -573,7 +587,7 @@ theorem setF_one (dev : Dev) (hda : dev.delOneAbsent = false) (a : SetArg) : ∀
           simp only
           have hc : child? (.key k) (.obj kvs) = some c := hlk
           have hs : ([Loc.key k], c) ∈ selG σ (.child k) (.obj kvs) := by simp [selG, sel, selMember, hlk]
-          refine setFollow_one a (.child k) g r _ c (.key k) _ hw hndr hc hs ?_ ?_ (fun _ => ih _ c hc hs false) (hkgo false c)
+          refine setFollow_one a (.child k) g r _ c (.key k) _ hw (tailOK_of_noDescent g r hndr) hc hs ?_ ?_ (fun _ => ih _ c hc hs false) (hkgo false c)
           · intro m hm; simpa [selG, sel, selMember, hlk] using hm
           · intro v _; simp [ownCreates, hlk]
         | none => simp only; exact setCreate_one dev a k g r kvs hlk
@@ -597,7 +611,7 @@ theorem setF_one (dev : Dev) (hda : dev.delOneAbsent = false) (a : SetArg) : ∀
             simp only
             have hc : child? (.idx j) (.arr xs) = some c := hx
             have hs : ([Loc.idx j], c) ∈ selG σ (.nth i) (.arr xs) := by simp [selG, sel, selMember, ha, hx]
-            refine setFollow_one a (.nth i) g r _ c (.idx j) _ hw hndr hc hs ?_ ?_ (fun _ => ih _ c hc hs false) (hkgo false c)
+            refine setFollow_one a (.nth i) g r _ c (.idx j) _ hw (tailOK_of_noDescent g r hndr) hc hs ?_ ?_ (fun _ => ih _ c hc hs false) (hkgo false c)
             · intro m hm; simpa [selG, sel, selMember, ha, hx] using hm
             · intro v _; simp [ownCreates]
       | obj kvs =>
@@ -609,19 +623,19 @@ theorem setF_one (dev : Dev) (hda : dev.delOneAbsent = false) (a : SetArg) : ∀
     | wild =>
       have hok := setSteps_ok (σ := σ) dev .wild d (WF_top d hw) hg.1 (fun _ h => by cases h) (fun _ h => by cases h)
       simp only [setF, List.isEmpty_cons, Bool.false_eq_true, if_false]
-      exact setVisit_one dev a _ .wild g r d hw hndr (fun _ h => by cases h) hok ih
+      exact setVisit_one dev a _ dev.descentSiblings .wild g r d hw (tailOK_of_noDescent g r hndr) (fun _ h => by cases h) hok _ hkgo ih
     | union ms =>
       have hok := setSteps_ok (σ := σ) dev (.union ms) d (WF_top d hw) hg.1 (fun _ h => by cases h) (fun _ h => by cases h)
       simp only [setF, List.isEmpty_cons, Bool.false_eq_true, if_false, Bool.false_and]
-      exact setVisit_one dev a _ (.union ms) g r d hw hndr (fun _ h => by cases h) hok ih
+      exact setVisit_one dev a _ dev.descentSiblings (.union ms) g r d hw (tailOK_of_noDescent g r hndr) (fun _ h => by cases h) hok _ hkgo ih
     | slice s e t =>
       have hok := setSteps_ok (σ := σ) dev (.slice s e t) d (WF_top d hw) hg.1 (fun _ h => by cases h) (fun _ h => by cases h)
       simp only [setF, List.isEmpty_cons, Bool.false_eq_true, if_false]
-      exact setVisit_one dev a _ (.slice s e t) g r d hw hndr (fun _ h => by cases h) hok ih
+      exact setVisit_one dev a _ dev.descentSiblings (.slice s e t) g r d hw (tailOK_of_noDescent g r hndr) (fun _ h => by cases h) hok _ hkgo ih
     | filter p =>
       have hok := setSteps_ok (σ := σ) dev (.filter p) d (WF_top d hw) hg.1 (fun _ h => by cases h) (fun _ h => by cases h)
       simp only [setF, List.isEmpty_cons, Bool.false_eq_true, if_false]
-      exact setVisit_one dev a _ (.filter p) g r d hw hndr (fun _ h => by cases h) hok ih
+      exact setVisit_one dev a _ dev.descentSiblings (.filter p) g r d hw (tailOK_of_noDescent g r hndr) (fun _ h => by cases h) hok _ hkgo ih
 
 /-- SetOne / DelOne EXACTLY (simple data, a path without recursive descent, `delOneAbsent` off): when no error is reported
 the data afterwards is the input with the new value written (the member deleted, the element set to null) at ONE
